@@ -252,6 +252,11 @@ func (arch *Arch) Assembler_process_line(line []byte) (string, error) {
 }
 
 func (arch *Arch) Assembler(inp []byte) (Program, error) {
+	// The last line is processed even when it is not newline terminated
+	if n := len(inp); n > 0 && inp[n-1] != 10 {
+		inp = append(inp[:n:n], 10)
+	}
+
 	// TODO keep in mind this
 	curLine := make([]byte, 256)
 
